@@ -671,7 +671,11 @@ func RunEnum(t *testing.T, ck *Check, what string, each func(yield func(tape ...
 		}
 		n++
 		if err := RunTape(ck, tape); err != nil {
-			t.Errorf("check %s failed on enumerated case %v: %v", ck.Name, tape, err)
+			shown := tape
+			if len(shown) > 12 {
+				shown = shown[:12]
+			}
+			t.Errorf("check %s failed on enumerated case %v…: %v", ck.Name, shown, err)
 			complete = false
 			return false
 		}
